@@ -191,6 +191,19 @@ func (r *refRun) program(p Prog) {
 		c = r.act(root, nil)
 	case "for", "while", "foreach":
 		c = r.loop2(root)
+	case "calls":
+		for i := 0; i < 3; i++ {
+			c = r.act(root, nil)
+			if c.kind == cNormal {
+				r.emit("A")
+				c = comp{kind: cRet, val: 0}
+			}
+			if c.kind != cRet {
+				break
+			}
+			r.emit(fmt.Sprintf("r=%d", c.val))
+			c = comp{}
+		}
 	case "func", "funcloop":
 		if p.Ctx == "func" {
 			c = r.act(root, nil)
@@ -280,6 +293,8 @@ func refSelfTest() error {
 		{Prog{"top", mk(mk(th("tE0"), []Catch{{"Throwable", Act{K: "re"}}}, &m), []Catch{{"E2", m}, {"E1", m}}, nil)}, "T1;T2;C2.1;F2;f2;C1.2;c1.2;Z;end=ok"},
 		// a throw out of a catch body is not offered to a sibling catch
 		{Prog{"top", mk(th("tE0"), []Catch{{"E0", tE2}, {"E2", m}}, nil)}, "T1;C1.1;end=uncaught(E2|s3)"},
+		// interface reached through a 3-level extends chain, same handler on every repetition
+		{Prog{"calls", mk(th("tE3"), []Catch{{"E1", m}, {"J1", m}, {"Exception", m}}, nil)}, "T1;C1.2;c1.2;A;r=0;T1;C1.2;c1.2;A;r=0;T1;C1.2;c1.2;A;r=0;Z;end=ok"},
 		// innermost try first
 		{Prog{"top", mk(mk(th("tE0"), []Catch{{"E1", m}}, nil), []Catch{{"E0", m}}, nil)}, "T1;T2;C2.1;c2.1;t1;Z;end=ok"},
 	}
